@@ -20,7 +20,7 @@ pub fn meta() -> Meta {
     Meta {
         id: "C19",
         level: "fault_enumeration",
-        rule: "valid .skf files — small 64-bit (3 samples), small 128-bit, one-sample 64- and 128-bit files (their snappy chunk is stored uncompressed), a file of 250 samples x 1200 rows in about ten snappy chunks (faults placed relative to the chunk structure, at a stride), a file of 180 samples x 200 highly compressible rows (more than 64 kB of CBOR, hence several snappy frames), thorough: a 6 kb genome file with incompressible k-mers, and the files an in-place delete and an in-place weed write — each subjected to EVERY truncation length 0..len-1 and EVERY single-bit flip of every byte; each damaged image goes through MergeSkaArray::<u64>::load then ::<u128>::load as in main: both must fail, or the accepted content (k, strand mode, names, k-mers, bases through the public API) must equal the original. CLI confirmation on the small file: every subcommand on every truncation (quick: stride 3) and on a stride of flips must exit non-zero exactly when the loader rejects, and a rejected delete/weed must leave the file byte-identical; the same damaged images under a name without the .skf suffix, next to intact files named <name>.skf, <name>.skf.skf and <name>.bak, must be rejected as well (a neighbour is never read instead). Non-trivial = a damaged image (all are); distinct outcomes = rejected / accepted-identical.".into(),
+        rule: "valid .skf files — small 64-bit (3 samples), small 128-bit, one-sample 64- and 128-bit files (their snappy chunk is stored uncompressed), a file of 250 samples x 1200 rows in about ten snappy chunks (faults placed relative to the chunk structure, at a stride), a file of 180 samples x 200 highly compressible rows (more than 64 kB of CBOR, hence several snappy frames), a one-sample file of 270 000 rows (more than 2^18 split k-mers, some fifty chunks; faults at, before and behind every chunk start, behind its checksum, in its middle, and one flipped bit in the type, length, checksum and two in the body of every chunk), thorough: 530 000 rows likewise and a 6 kb genome file with incompressible k-mers, and the files an in-place delete and an in-place weed write — each subjected to EVERY truncation length 0..len-1 and EVERY single-bit flip of every byte; each damaged image goes through MergeSkaArray::<u64>::load then ::<u128>::load as in main: both must fail, or the accepted content (k, strand mode, names, k-mers, bases through the public API) must equal the original. CLI confirmation on the small file: every subcommand on every truncation (quick: stride 3) and on a stride of flips must exit non-zero exactly when the loader rejects, and a rejected delete/weed must leave the file byte-identical; the same damaged images under a name without the .skf suffix, next to intact files named <name>.skf, <name>.skf.skf and <name>.bak, must be rejected as well (a neighbour is never read instead). Non-trivial = a damaged image (all are); distinct outcomes = rejected / accepted-identical.".into(),
         assumptions: vec!["exactly one fault per image (one truncation or one flipped bit)".into(), "flips that change only the stored per-k-mer counts, k_bits or version string are reported separately (not part of the statement's 'samples, k-mers or bases')".into()],
         exhaustive_when_uncapped: true,
     }
@@ -133,6 +133,24 @@ pub fn prepare(tier: crate::explore::Tier, seed: u64, dir: &str) {
             add("many frames", &p);
         }
     }
+    // many ROWS: one sample, 270 000 split k-mers (more than 2^18; thorough also 530 000, more than 2^19): some 3 MB in
+    // about fifty chunks; explored relative to the chunk structure (see run)
+    for (label, nrows) in [("many rows", 270_000u64), ("very many rows", 530_000)] {
+        if nrows > 300_000 && !ctx.tier.thorough() {
+            continue;
+        }
+        let mut rows = BTreeMap::new();
+        for i in 0..nrows {
+            let key = String::from_utf8(crate::enumerate::nth_string(b"ACGT", 20, i * 2_000_003 + 1)).unwrap();
+            rows.insert(key, vec![b"ACGTRYN"[(i % 7) as usize]]);
+        }
+        let t = Table { k: 21, rc: true, names: vec!["genome".into()], rows };
+        let p = scratch::path("c19_manyrows.skf");
+        let a: MergeSkaArray<u64> = real::forge_array(&t);
+        if a.save(&p).is_ok() {
+            add(label, &p);
+        }
+    }
     if ctx.tier.thorough() {
         let k = 31;
         let g = crate::enumerate::repeat_free(6000, k, 0, ctx.seed + 19);
@@ -201,20 +219,26 @@ pub fn run(ctx: &Ctx, rep: &mut Report) {
     let mut idx = 0u64;
     let mut accepted_flips_small: Vec<(usize, u8)> = Vec::new();
     for s in &subs {
-        // sanity: the undamaged file loads and equals itself
+        // the reference is what the real loader reads from the UNDAMAGED file (the independent reader of mirror.rs is
+        // used to classify hidden fields only; should the two disagree, that is C09's business, noted as a corner)
         std::fs::write(&path, &s.bytes).unwrap();
-        match load_any(&path) {
-            Some(Ok(t)) if t == s.table => {}
+        let reference = match load_any(&path) {
+            Some(Ok(t)) => t,
             _ => {
                 rep.machinery(format!("C19: undamaged subject '{}' does not load", s.name));
                 continue;
             }
+        };
+        if reference != s.table {
+            rep.corner("loader_and_independent_reader_disagree_on_an_undamaged_file");
         }
+        let s = &Subject { name: s.name.clone(), bytes: s.bytes.clone(), table: reference, state: s.state.clone() };
         let len = s.bytes.len();
         rep.extra.insert(format!("max_bytes[{}]", s.name), json!(len));
-        if s.name == "many frames" {
+        if s.name == "many frames" || s.name.ends_with("many rows") {
             // too large for every position: the chunk structure of the snappy frame format is read (1 type byte, 3
             // length bytes, then the chunk) and the faults are placed relative to it
+            let rows_subject = s.name.ends_with("many rows");
             let mut starts: Vec<usize> = Vec::new();
             let mut p = 0usize;
             while p + 4 <= len {
@@ -222,9 +246,20 @@ pub fn run(ctx: &Ctx, rep: &mut Report) {
                 let l = s.bytes[p + 1] as usize | (s.bytes[p + 2] as usize) << 8 | (s.bytes[p + 3] as usize) << 16;
                 p += 4 + l;
             }
-            rep.extra.insert("max_chunks[many frames]".into(), json!(starts.len()));
-            let mut cuts: std::collections::BTreeSet<usize> = (0..len).step_by(61).collect();
-            for st in &starts {
+            rep.extra.insert(format!("max_chunks[{}]", s.name), json!(starts.len()));
+            // 'many frames': every 61st byte and ten positions either side of every chunk start; 'many rows' (each image
+            // costs a 3 MB load): the chunk start, the byte before and after it, the end of the checksum, and the middle
+            let mut cuts: std::collections::BTreeSet<usize> = if rows_subject { std::collections::BTreeSet::new() } else { (0..len).step_by(61).collect() };
+            for (ci, st) in starts.iter().enumerate() {
+                if rows_subject {
+                    let next = starts.get(ci + 1).copied().unwrap_or(len);
+                    for c in [st.saturating_sub(1), *st, st + 1, st + 8, (st + next) / 2] {
+                        if c < len {
+                            cuts.insert(c);
+                        }
+                    }
+                    continue;
+                }
                 for d in 0..=9usize {
                     if st + d < len {
                         cuts.insert(st + d);
@@ -243,7 +278,17 @@ pub fn run(ctx: &Ctx, rep: &mut Report) {
             }
             let mut img = s.bytes.clone();
             let mut flips: Vec<(usize, u8)> = Vec::new();
-            for st in &starts {
+            for (ci, st) in starts.iter().enumerate() {
+                if rows_subject {
+                    // one bit of the chunk type, of the length, of the checksum, and two inside the chunk
+                    let next = starts.get(ci + 1).copied().unwrap_or(len);
+                    for (pos, bit) in [(*st, 0u8), (st + 1, (ci % 8) as u8), (st + 5, ((ci + 3) % 8) as u8), (st + 8 + (next - st - 8) / 3, (ci % 8) as u8), (next - 1, ((ci + 5) % 8) as u8)] {
+                        if pos < len {
+                            flips.push((pos, bit));
+                        }
+                    }
+                    continue;
+                }
                 // all bits of the chunk header and of the checksum behind it
                 for d in 0..8usize {
                     if st + d < len {
@@ -253,8 +298,10 @@ pub fn run(ctx: &Ctx, rep: &mut Report) {
                     }
                 }
             }
-            for pos in (0..len).step_by(23) {
-                flips.push((pos, (pos % 8) as u8));
+            if !rows_subject {
+                for pos in (0..len).step_by(23) {
+                    flips.push((pos, (pos % 8) as u8));
+                }
             }
             for (pos, bit) in flips {
                 idx += 1;
@@ -264,12 +311,16 @@ pub fn run(ctx: &Ctx, rep: &mut Report) {
                 img[pos] ^= 1 << bit;
                 check_image(rep, s, &img, &format!("bit {bit} of byte {pos} flipped"), &path);
                 img[pos] ^= 1 << bit;
-                if idx % 256 == 0 && ctx.expired() {
+                if (rows_subject || idx % 256 == 0) && ctx.expired() {
                     rep.capped = true;
                     return;
                 }
             }
-            rep.completed.push("'many frames': truncations around every chunk boundary and at every 61st byte; flips of every header and checksum bit and of one bit in every 23rd byte".into());
+            if rows_subject {
+                rep.completed.push(format!("'{}': truncations at, before and behind every chunk start, behind its checksum and in its middle; one flipped bit in the type, length, checksum and two in the body of every chunk", s.name));
+            } else {
+                rep.completed.push("'many frames': truncations around every chunk boundary and at every 61st byte; flips of every header and checksum bit and of one bit in every 23rd byte".into());
+            }
             continue;
         }
         // truncations
